@@ -228,7 +228,6 @@ def generate():
     out.append("def fmtSpecial : List (Nat × Nat × Nat) := [%s]\n" % ", ".join("(%d, %d, %d)" % s for s in special))
     out.append("/-- `if (mod == 65536) return (a * count + b) / c;` -/")
     out.append("def fmt65536 : Nat × Nat × Nat := (%d, %d, %d)\n" % m65)
-    names = ["fmtC9", "fmtC4764", "fmtC25201", "fmtC61857a", "fmtC61857b", "fmtC25201b", "fmtC768", "fmtC397"]
     out.append("/- numeric operands of the zzMulW calls of beltFMTCalcB, in source order:")
     out.append("   t4*=c0; num*=c1 (then *k); t3*=c2; t2*=c3; t1*=c4; t0*=c5; den*=c6; den*=c7 -/")
     out.append("def fmtConsts : List Nat := [%s]\n" % ", ".join(str(c) for c in consts))
